@@ -495,6 +495,9 @@ func translatorValidation(eng *Engine, native *NativeRunner, fn *ssa.Function, o
 			efailed = append(efailed, v.Label)
 		}
 		nf := append([]string(nil), rec.Failed...)
+		// assertions about allocation sizes can only be observed by the engine
+		// (natively they are confirmed in replay mode through an allocation proxy)
+		efailed, nf = dropEngineOnly(efailed), dropEngineOnly(nf)
 		sort.Strings(efailed)
 		sort.Strings(nf)
 		efailed, nf = uniq(efailed), uniq(nf)
@@ -514,6 +517,16 @@ func translatorValidation(eng *Engine, native *NativeRunner, fn *ssa.Function, o
 		return 0, skipped, "no usable random vector (all violated an assumption)"
 	}
 	return n, skipped, ""
+}
+
+func dropEngineOnly(s []string) []string {
+	var out []string
+	for _, x := range s {
+		if !strings.Contains(x, ".alloc-bounded") {
+			out = append(out, x)
+		}
+	}
+	return out
 }
 
 func uniq(s []string) []string {
